@@ -62,6 +62,8 @@ def _evaluate_forwardref(ref: ForwardRef, memo: TypeCheckMemo) -> Any:
 
 def _resolve_type(type_: Any, memo: TypeCheckMemo) -> Any:
     """Resolve forward references in a type hint."""
+    if type_ is None:
+        return type(None)  # `None` as an annotation means `NoneType` (as `typing.get_type_hints` has it)
     if isinstance(type_, str):
         return _evaluate_forwardref(ForwardRef(type_), memo)
     if isinstance(type_, ForwardRef):
